@@ -282,7 +282,7 @@ def rule_window(check):
     ins = [n for n in hir.walk(a.body) if hir.is_call(n) and (hir.callee_name(n) or n.get("method")) in ("insert", "push", "push_back", "or_insert", "or_insert_with", "or_default", "extend")]
     check.floor(R, "recordings in add_literal", len(ins), 1)
     for n in ins:
-        atoms = gate.atoms_at(a, n)
+        atoms = gate.atoms_expanded(prog, a, n)
         FLIP = {"Gt": "Le", "Le": "Gt", "Lt": "Ge", "Ge": "Lt"}
         cmps = sorted((x[1] if x[4] else FLIP[x[1]], _side(x[2]), _side(x[3]), True) for x in atoms if x[0] == "cmp")
         want = sorted([("Gt", "len(value)", "self.min_literal_length", True), ("Le", "len(value)", "self.max_literal_length", True)])
@@ -304,10 +304,10 @@ def rule_window(check):
         col_ok = col.get("k") == "Binary" and col["op"] == "Add" and hir.lit_value(col["r"]) == 1 and (hir.place(col["l"]) or "").endswith(".col.0")
         check.expect(line_ok and col_ok, R, R + "/location", hir.loc(n), "line = pos.line, column = pos.col.0 + 1", "location computed as line=%s column=%s" % (hir.describe(flds["line"]), hir.describe(col)))
         lk = [x for x in hir.calls_in(g.body, name="lookup_char_pos")]
-        ok = len(lk) == 1 and (hir.place(hir.call_args(lk[0])[1]) or "").endswith(".span.lo")
+        ok = len(lk) == 1 and _side(hir.place(hir.call_args(lk[0])[1]) or "").endswith("span.lo")
         check.expect(ok, R, R + "/position", hir.loc(n), "position = lookup_char_pos(span.lo)", "position is not looked up from span.lo")
         idn = hir.place(flds["ident"]) or ""
-        check.expect(idn.endswith(".ident"), R, R + "/ident", hir.loc(n), "ident copied from the recorded occurrence", "ident is %s" % idn)
+        check.expect(_side(idn).endswith("ident"), R, R + "/ident", hir.loc(n), "ident copied from the recorded occurrence", "ident is %s" % idn)
 
 
 def _side(x):
@@ -332,12 +332,21 @@ def rule_dedupe(check):
         raise AnchorMissing("the field of LiteralVisitor that holds the recorded locations")
     ty = fld[0]["ty"]
     m = re.search(r"(HashSet|BTreeSet)<([A-Za-z0-9_:]+)", ty)
-    if not m:
+    mm = re.search(r"(HashMap|BTreeMap)<([A-Za-z0-9_:]+::)?Span\b\s*,", re.sub(r"^[A-Za-z0-9_:]+<[A-Za-z0-9_:]+,\s*", "", ty))
+    if not m and mm:
+        # a map from the span itself: one entry per span by construction; the first recording wins only
+        # if the entry is filled with or_insert*, never overwritten with insert
+        a_ = prog.fn("LiteralVisitor::add_literal")
+        chain = [n.get("method") for n in a_.nodes() if n.get("k") == "MethodCall"]
+        first_wins = any(x in ("or_insert", "or_insert_with") for x in chain) and not any(n.get("k") == "MethodCall" and n["method"] == "insert" and "Span" in (hir.peel(n["args"][0]).get("ty") or "") for n in a_.nodes() if n.get("args"))
+        check.expect(first_wins, R, R + "/collection", hir.loc(a_.rec), "locations of one literal are kept in a %s keyed by the span; the first recording of a span is kept" % mm.group(1), "the per-span entry of a literal is overwritten by a later recording of the same span: the name recorded by the named form is lost")
+    elif not m:
         check.bad(R, R + "/collection", hir.loc(prog.fn("LiteralVisitor::add_literal").rec), "LiteralVisitor.%s is a %s: the locations of one literal are not kept in a set keyed by the span, so an occurrence visited twice (named initialiser + generic visit, operands copied into a hook) is reported twice - Vec::dedup* only removes adjacent entries" % (fld[0]["name"], re.sub(r"[a-z_]+::", "", ty)[:90]))
         return
-    check.ok(R, R + "/collection", "-", "locations of one literal are kept in a %s<%s>" % (m.group(1), m.group(2).split("::")[-1]))
-    elem = m.group(2).split("::")[-1]
-    traits = (("PartialEq", "eq"), ("Hash", "hash")) if m.group(1) == "HashSet" else (("PartialEq", "eq"), ("Ord", "cmp"))
+    if m:
+        check.ok(R, R + "/collection", "-", "locations of one literal are kept in a %s<%s>" % (m.group(1), m.group(2).split("::")[-1]))
+    elem = m.group(2).split("::")[-1] if m else None
+    traits = () if not m else (("PartialEq", "eq"), ("Hash", "hash")) if m.group(1) == "HashSet" else (("PartialEq", "eq"), ("Ord", "cmp"))
     for tr_name, fn_name in traits:
         fs = [f for f in prog.fns if f.body is not None and f.name == fn_name and (f.rec.get("self_ty") or "").endswith(elem) and (f.rec.get("impl_of_trait") or "").endswith(tr_name)]
         if len(fs) != 1:
